@@ -4,8 +4,7 @@ from . import core, solvers, csmt
 from .core import HOLDS, VIOLATION, INCONCLUSIVE
 from .solvers import I
 
-CX_DIR = os.path.join(core.VERIF, "engines", "extract")
-CX_TARGET = os.path.join(core.BUILD, "extract")
+CX_DIR, CX_TARGET = core.crate_dirs("engines/extract")
 CX = os.path.join(CX_TARGET, "debug", "cx")
 _build_lock = threading.Lock()
 _built = False
